@@ -17,6 +17,7 @@ type EvalCtx struct {
 	frame  *FrameState // for source-level names (may be nil)
 	pkg    string      // package path for resolving unqualified type names
 	inOld  bool
+	iterCell string // visited-set cell of the map iteration of the loop being checked
 	preferFrame bool // loop invariants: source-level current values shadow entry values
 	events []Event
 }
@@ -194,6 +195,11 @@ func (c *EvalCtx) eval(e Expr) Val {
 			return Val{K: KScalar, T: types.Typ[types.UntypedNil], S: "0", Sort: "Int"}
 		case "zerotime":
 			return intVal(zeroTimeNs)
+		case "lastclock":
+			if sn := c.snap(); sn != nil {
+				return intVal(sn.clock)
+			}
+			return intVal(c.p.clock)
 		}
 		if v, ok := c.lookup(e.Name); ok {
 			return v
@@ -526,6 +532,15 @@ func (c *EvalCtx) evalCall(e *ECall) Val {
 		r := a
 		r.S = ite(cnd, a.S, b.S)
 		return r
+	case "min", "max":
+		a, b := c.eval(e.Args[0]), c.eval(e.Args[1])
+		r := a
+		if e.Fn == "min" {
+			r.S = "(ite (<= " + a.S + " " + b.S + ") " + a.S + " " + b.S + ")"
+		} else {
+			r.S = "(ite (>= " + a.S + " " + b.S + ") " + a.S + " " + b.S + ")"
+		}
+		return r
 	case "real":
 		v := c.eval(e.Args[0])
 		if c.sortOfVal(v) == "Real" {
@@ -624,8 +639,8 @@ func (c *EvalCtx) evalCall(e *ECall) Val {
 	case "visited":
 		// visited(k): key k already produced by the map iteration of the current loop
 		k := c.eval(e.Args[0])
-		for name, cell := range c.p.cells {
-			if strings.HasPrefix(name, "iter:") && cell.K == KGhostMap {
+		if c.iterCell != "" {
+			if cell, ok := c.p.cells[c.iterCell]; ok && cell.K == KGhostMap {
 				return boolVal(sel(cell.S, k.S))
 			}
 		}
